@@ -235,8 +235,10 @@ def elem_contract(slots, width, V, L, rows, fusion, tol, tie):
         if best is None:
             best = want
     lost = sorted(list(p) for p in best if p not in got)
-    if not pruned and lost and all(p in best and _close(best[p], m, tol) for p, m in got.items()):
-        return "nothing was pruned but prefix(es) %s of positive mass are lost: reported %s, path summation gives %s" % (lost, _fmt(got), _fmt(best))
+    if not pruned and all(p in best and (m <= best[p] or _close(best[p], m, tol)) for p, m in got.items()):
+        under = sorted(list(p) for p, m in got.items() if not _close(best[p], m, tol))
+        return "nothing was pruned but mass is lost (none gained): prefix(es) %s of positive mass are missing, %s under-weighted: reported %s, path summation gives %s" % (
+            lost, under, _fmt(got), _fmt(best))
     return "reported %s but the width-%d recursion gives %s%s" % (
         _fmt(got), width, _fmt(best), " (or %d tie-broken alternatives)" % (len(beams) - 1) if len(beams) > 1 else "")
 
@@ -799,11 +801,11 @@ def _nan_class_advance(case, msg):
 
 def _lost_class_search(case, msg):
     """same widths, an element with >= 4 valid frames; the only symptom is that prefixes of positive mass are
-    missing from an unpruned result while every reported mass is right"""
+    missing from an unpruned result (and their extensions under-weighted) while no reported mass is too large"""
     if "NaN" in msg and "additionally NaN in" not in msg:
         return False
     parts = msg.split("; additionally NaN in")[0].split(" || ")
-    return _wide(case, 4) and all("of positive mass are lost" in p for p in parts)
+    return _wide(case, 4) and all("mass is lost (none gained)" in p for p in parts)
 
 
 def _lost_class_advance(case, msg):
@@ -818,7 +820,7 @@ _WHAT1 = ("beam wider than the live candidates: -inf filler slots turn into NaN 
           "and NaN then sorts first in topk: NaN masses are returned and displace real prefixes")
 _WHAT2 = ("beam wider than the live candidates: an extension candidate that was merged into an identical prefix (mass set to -inf) is "
           "picked to fill the beam, keeps its place in the prefix relation, and two frames later its -inf is merged into a real "
-          "longer prefix, whose mass is lost (prefix missing from the result)")
+          "longer prefix, whose mass is lost (prefix missing from the result or under-weighted, and its extensions with it)")
 _CLASS1 = "width > V*V+V+1 and the element has >= 2 valid frames"
 _CLASS2 = "width > V*V+V+1 and the element has >= 4 valid frames (which widths lose a prefix depends on how topk orders equal -inf candidates)"
 FINDINGS = [
